@@ -1547,3 +1547,72 @@ def type_lookup_from_schema(check: Check, repo: Repo, rule: str = "TYPE-LOOKUP")
         ok = isinstance(v, ast.Call) and unparse(v.func).endswith("schema.get_type") and len(v.args) == 1
         check.ob(rule, r, f"MetaFields.type: return {unparse(r.value)[:60]}", ok,
                  "the schema's own type map" if ok else f"`{unparse(v)[:70]}` is not a plain lookup in the schema's type map")
+
+
+def sort_permutes(check: Check, repo: Repo, rule: str = "SORT-PERMUTES") -> None:
+    check.rule(
+        rule,
+        "lexicographic_sort_schema changes only ordering: every entry a config mapper overrides has the form "
+        "`key: [lambda:] SORTER(config[key][()])` - the sorter applied directly to the collection stored under the *same* "
+        "key - where SORTER is a helper of the module that returns a permutation of its argument (`sorted(arg, ...)`, or a "
+        "dict rebuilt over `sorted(arg, ...)` without a filter). A filter, a slice, an `or None`, or the collection of "
+        "another key makes the sorted schema differ from the original in content (find_schema_changes reports removals)",
+    )
+    mod = repo.mod("utilities.lexicographic_sort_schema")
+    fn = repo.func("utilities.lexicographic_sort_schema", "lexicographic_sort_schema")
+    # 1. the permutation helpers
+    perms: set[str] = set()
+    helpers = [f for f in mod.tree.body if isinstance(f, ast.FunctionDef) and f is not fn]
+    changed = True
+    why: dict[str, str] = {}
+    while changed:
+        changed = False
+        for h in helpers:
+            if h.name in perms:
+                continue
+            rets = [r for r in walk_body(h) if isinstance(r, ast.Return) and r.value is not None]
+            p0 = h.args.args[0].arg if h.args.args else None
+            if len(rets) != 1 or p0 is None or len([s for s in h.body if not (isinstance(s, ast.Expr) and isinstance(s.value, ast.Constant))]) != 1:
+                why[h.name] = "not a single-return helper"
+                continue
+            v = rets[0].value
+
+            def is_sorted_of_param(e: ast.AST) -> bool:
+                return isinstance(e, ast.Call) and isinstance(e.func, ast.Name) and e.args and isinstance(e.args[0], ast.Name) and e.args[0].id == p0 \
+                    and (e.func.id == "sorted" or e.func.id in perms) and not any(kw.arg == "reverse" and False for kw in e.keywords)
+
+            ok = is_sorted_of_param(v)
+            if not ok and isinstance(v, ast.DictComp) and len(v.generators) == 1:
+                g = v.generators[0]
+                # {key: map_[key] for key in sorted(map_, ...)}: same keys, each with its own value
+                ok = not g.ifs and is_sorted_of_param(g.iter) and isinstance(g.target, ast.Name) and unparse(v.key) == g.target.id \
+                    and unparse(v.value) == f"{p0}[{g.target.id}]"
+            if ok:
+                perms.add(h.name)
+                changed = True
+            else:
+                why[h.name] = f"`{unparse(v)[:60]}` is not sorted(<argument>) / a dict rebuilt over it"
+    for h in helpers:
+        if h.name.startswith("sort"):
+            check.ob(rule, h, f"{h.name}() returns a permutation of its argument", h.name in perms,
+                     "sorted(<argument>, ...)" if h.name in perms else why.get(h.name, "?"))
+    # 2. the overriding entries
+    n = 0
+    for lam in [x for x in ast.walk(fn) if isinstance(x, ast.Lambda) and isinstance(x.body, ast.Dict) and x.args.args]:
+        cfgname = lam.args.args[0].arg
+        for k, v in zip(lam.body.keys, lam.body.values):
+            if k is None:
+                continue  # **config
+            n += 1
+            key = k.value if isinstance(k, ast.Constant) else unparse(k)
+            inner = v.body if isinstance(v, ast.Lambda) and not v.args.args else v
+            ok = isinstance(inner, ast.Call) and isinstance(inner.func, ast.Name) and inner.func.id in perms and bool(inner.args)
+            if ok:
+                a = inner.args[0]
+                if isinstance(a, ast.Call) and not a.args and not a.keywords:
+                    a = a.func  # the stored thunk is called
+                ok = unparse(a) == f"{cfgname}[{key!r}]" or unparse(a) == f'{cfgname}["{key}"]'
+            check.ob(rule, v, f"lexicographic_sort_schema: '{key}': {unparse(v)[:70]}", ok,
+                     "a permutation of the collection under the same key" if ok else
+                     f"the new value of '{key}' is not SORTER({cfgname}['{key}']): elements can be dropped, added or taken from elsewhere")
+    check.floor(rule, 8, "overridden config entries plus sort helpers")
